@@ -2,10 +2,15 @@
    (recorded byte stream with timestamps zeroed,
     [(wire id, chunks enqueued by the sending agent)],
     [(wire id, chunks dequeued by the agent listening on that id)]). *)
-From PV Require Import Lib.Base C20.Model.
+From PV Require Import Lib.Base C20.Model C20.Sched.
 Open Scope Z_scope.
 
 Definition rep (b n : Z) : list Z := repeat b (Z.to_nat n).
+
+(* observable events of one direction of a real run, in the order they were logged *)
+Inductive ev : Type :=
+| EFrag (n : Z)                       (* the tap forwarded n more bytes to the receiving Plexer *)
+| EDeq (id : Z) (chunk : list Z).     (* the agent listening on id got chunk from dequeue_chunk *)
 
 Inductive case : Type :=
 (* one direction of a run of two real Plexers: recorded bytes (timestamps zeroed),
@@ -13,17 +18,100 @@ Inductive case : Type :=
 | CPlex (bytes : list Z) (sent recvd : list (Z * list (list Z)))
 (* pallas-network2 bearer: segments written by write_segment, the raw bytes it
    produced, and what read_segment returned over those bytes *)
-| CNet2 (segs : list segment) (bytes : list Z) (back : list (Z * list Z)).
+| CNet2 (segs : list segment) (bytes : list Z) (back : list (Z * list Z))
+(* a recorded run replayed as a schedule of the transition system: subscribed ids,
+   the segments in wire order, the logged events, what every agent had dequeued at the end *)
+| CSched (subs : list Z) (wire : list (Z * list Z)) (events : list ev) (recvd : list (Z * list (list Z))).
 
 Definition bytes_eqb := list_eqb Z.eqb.
 Definition chunks_eqb := list_eqb bytes_eqb.
 Definition segs_eqb := list_eqb (fun a b : Z * list Z => (fst a =? fst b) && bytes_eqb (snd a) (snd b)).
+
+(* ---- replay: the logged events are completed to a schedule (the unobservable
+   steps - enqueue, mux, demux - are inserted as late as possible; the log order of
+   two different agents' dequeues is not reliable, so a dequeue that the model
+   needs in order to unblock the demuxer is pulled forward) and run through exec_step *)
+Definition bind {A B} (o : option A) (f : A -> option B) : option B := match o with Some a => f a | None => None end.
+
+Fixpoint feed (fuel : nat) (cfg : config) (st : state) (todo : list (Z * list Z)) (n : nat)
+  : option (state * list (Z * list Z)) :=
+  if (n <=? length (inflight st))%nat then Some (st, todo) else
+  match fuel, todo with
+  | S f, (id, x) :: r =>
+    bind (exec_step cfg st (CEnqueue id x)) (fun st1 =>
+    bind (exec_step cfg st1 (CMux 0)) (fun st2 => feed f cfg st2 r n))
+  | _, _ => None
+  end.
+
+Fixpoint take_deq (p : Z) (evs : list ev) : option (list Z * list ev) :=
+  match evs with
+  | [] => None
+  | EDeq id c :: r => if id =? p then Some (c, r)
+                      else bind (take_deq p r) (fun '(c', r') => Some (c', EDeq id c :: r'))
+  | e :: r => bind (take_deq p r) (fun '(c', r') => Some (c', e :: r'))
+  end.
+
+Definition deq_check (cfg : config) (st : state) (id : Z) (chunk : list Z) : option state :=
+  match egress st id with
+  | x :: _ => if bytes_eqb x chunk then exec_step cfg st (CDequeue id) else None
+  | [] => None
+  end.
+
+Fixpoint pump (fuel : nat) (cfg : config) (st : state) (id : Z) (later : list ev) : option (state * list ev) :=
+  match egress st id with
+  | _ :: _ => Some (st, later)
+  | [] =>
+    match fuel with
+    | O => None
+    | S f =>
+      match exec_step cfg st CDemux with
+      | Some st' => pump f cfg st' id later
+      | None =>
+        match dmx st with
+        | DHolding p _ =>
+          bind (take_deq p later) (fun '(c, later') =>
+          bind (deq_check cfg st p c) (fun st1 => pump f cfg st1 id later'))
+        | _ => None
+        end
+      end
+    end
+  end.
+
+Fixpoint replay (fuel : nat) (cfg : config) (st : state) (todo : list (Z * list Z)) (evs : list ev)
+  : option (state * list (Z * list Z)) :=
+  match fuel with
+  | O => None
+  | S f =>
+    match evs with
+    | [] => Some (st, todo)
+    | EFrag n :: r =>
+      bind (feed (S (length todo)) cfg st todo (Z.to_nat n)) (fun '(st1, todo1) =>
+      bind (exec_step cfg st1 (CArrive (Z.to_nat n))) (fun st2 => replay f cfg st2 todo1 r))
+    | EDeq id c :: r =>
+      bind (pump (4 * length todo + 4 * length evs + 400) cfg st id r) (fun '(st1, r1) =>
+      bind (deq_check cfg st1 id c) (fun st2 => replay f cfg st2 todo r1))
+    end
+  end.
+
+Definition run_sched (subs : list Z) (wire : list (Z * list Z)) (events : list ev) :=
+  replay (S (length events)) (plexer_cfg subs) init wire events.
+
+Definition idle (st : state) (subs : list Z) : bool :=
+  match ingress st, inflight st, arrived st, dmx st with
+  | [], [], [], DIdle => forallb (fun id => match egress st id with [] => true | _ => false end) subs
+  | _, _, _, _ => false
+  end.
 
 (* model run: cut the bytes into segments, route them *)
 Definition case_out (c : case) :=
   match c with
   | CPlex bytes sent _ => let '(w, fin) := parse bytes in (demux (map fst sent) w, fin, [])
   | CNet2 segs _ _ => let '(w, fin) := parse (mux_bytes segs) in ([], fin, w)
+  | CSched subs wire events _ =>
+    match run_sched subs wire events with
+    | Some (st, todo) => (map (fun id => (id, delivered st id)) subs, Ok tt, todo)
+    | None => ([], Err 9, [])
+    end
   end.
 
 Definition case_ok (c : case) : bool :=
@@ -42,4 +130,15 @@ Definition case_ok (c : case) : bool :=
     bytes_eqb (mux_bytes segs) bytes &&
     let '(w, fin) := parse bytes in
     match fin with Ok _ => true | _ => false end && segs_eqb w back
+  | CSched subs wire events recvd =>
+    match run_sched subs wire events with
+    | Some (st, todo) =>
+      (* every logged step was enabled in the model and returned the same chunk; at the end each
+         agent holds exactly the model's delivered sequence, which is everything sent to it,
+         and nothing is left anywhere *)
+      match todo with [] => true | _ => false end && idle st subs
+      && forallb (fun q => chunks_eqb (delivered st (fst q)) (snd q)) recvd
+      && forallb (fun id => chunks_eqb (delivered st id) (sent st id)) subs
+    | None => false
+    end
   end.
